@@ -24,12 +24,22 @@ cargo nextest run --workspace --no-fail-fast --test-threads 8 --offline > /tmp/v
 SUMMARY=$(grep -E "Summary" /tmp/verify-$ID-baseline.log | tail -1)
 FAILS=$(grep -E "^\s+FAIL " /tmp/verify-$ID-baseline.log | awk '{print $NF, $(NF-1)}' | sort -u | tr '\n' ';')
 echo "$SUMMARY | failing: $FAILS" | tee -a $LOG
+# owner_v3_lifecycle (real sleeps against a real listener) fails when the machine is loaded:
+# an existing test that failed in the full run is re-run alone, up to three times
+RETRY=""
+if echo "$FAILS" | grep -q "owner_v3_lifecycle"; then
+  for i in 1 2 3; do
+    if cargo nextest run -p grin_wallet --test owner_v3_lifecycle --offline > /tmp/verify-$ID-retry.log 2>&1; then RETRY="owner_v3_lifecycle passed when re-run alone (attempt $i)"; break; fi
+    RETRY="owner_v3_lifecycle FAILED alone $i times"
+  done
+  echo "$RETRY" | tee -a $LOG
+fi
 mkdir -p /verif/seeded/$ID
 cp SEEDED/* /verif/seeded/$ID/ 2>/dev/null
 python3 - <<PY
 import json
 m=json.load(open('/verif/seeded/$ID/meta.json'))
-m['verified_by_me']={'demo_exit_with_patch':$R1,'demo_exit_without_patch':$R2,'baseline_summary':"""$SUMMARY""",'baseline_failing_tests':"""$FAILS""",'files':"""$FILES"""}
+m['verified_by_me']={'demo_exit_with_patch':$R1,'demo_exit_without_patch':$R2,'baseline_summary':"""$SUMMARY""",'baseline_failing_tests':"""$FAILS""",'files':"""$FILES""",'retry':"""$RETRY"""}
 m['property']="$PROP"
 json.dump(m,open('/verif/seeded/$ID/meta.json','w'),indent=1)
 PY
